@@ -128,7 +128,7 @@ class Context(object):
         self.refuted_counts = {}
 
     # -- deductive -------------------------------------------------------
-    def run_deductive(self, modules, idents, procs=None):
+    def run_deductive(self, modules, idents, procs=None, keep=None):
         procs = procs or min(16, max(1, len(idents)))
         env = {k: v for k, v in os.environ.items() if k.startswith(('VERIF', 'PYVC'))}
         jobs = [(modules, i, env) for i in idents]
@@ -143,6 +143,14 @@ class Context(object):
                 continue
             self.functions.append({k: v for k, v in s.items()
                                    if k not in ('non_discharged', 'obligation_names', 'samples')})
+            if keep is not None:
+                dropped = [n for n in s['obligation_names'] if not keep(ident, n)]
+                nd = sum(s['obligation_names'][n] for n in dropped)
+                nbad = sum(1 for ob in s['non_discharged'] if not keep(ident, ob['name']))
+                s['obligations'] -= nd
+                s['discharged'] -= (nd - nbad)
+                s['non_discharged'] = [ob for ob in s['non_discharged'] if keep(ident, ob['name'])]
+                self.functions[-1]['obligations_not_counted_for_this_property'] = nd
             self.obligations += s['obligations']
             self.discharged += s['discharged']
             for b, n in s['by_backend'].items():
@@ -161,10 +169,6 @@ class Context(object):
                 if ob['status'] == 'undecided':
                     self.undecided.append('%s: %s (%s)' % (ident, ob['name'], ob['detail']))
                     continue
-                key = ob['name']
-                if key in seen:
-                    continue        # one witness per obligation name
-                seen.add(key)
                 self.failures.append(Failure(self.pid, ob['name'], ob['kind'].replace('-derived', ''),
                                              ob['model'], ob['detail'], 'deductive',
                                              function=ident, derived=derived,
@@ -203,11 +207,18 @@ def finish(ctx, level_if_proved='proof', checker_cmd='', replayers=None):
     known_hits = []
     spec_undecided = []
     nrep = 0
+    reported_names = set()
     for f in ctx.failures:
         k = match_known(f, known)
         if k is not None:
             known_hits.append((k, f))
             continue
+        # every refuted instance is matched against the known findings
+        # individually; of the unmatched ones, one witness per obligation
+        # name is replayed and reported
+        if (f.name, f.source) in reported_names:
+            continue
+        reported_names.add((f.name, f.source))
         if f.derived:
             spec_undecided.append(f)
             continue
@@ -258,8 +269,7 @@ def finish(ctx, level_if_proved='proof', checker_cmd='', replayers=None):
     # ---- evidence ------------------------------------------------------
     # known-finding obligations are expected refutations inside a listed
     # witness class: they are neither counted as obligations nor discharged
-    n_known_ded = sum(ctx.refuted_counts.get(f.name, 1) for k, f in known_hits
-                      if f.source in ('deductive', 'exhaustive'))
+    n_known_ded = sum(1 for k, f in known_hits if f.source in ('deductive', 'exhaustive'))
     obligations = ctx.obligations - n_known_ded
     discharged = ctx.discharged
     all_discharged = (obligations > 0 and not ctx.undecided and not violations
